@@ -2510,6 +2510,12 @@ impl<T: PPGEvaluatorStrategy> PPGEvaluator<T> {
                     // ande the strategy says 'already done',
                     // this is the only time we can get them invalidated
                     !Self::has_upstreams(&self.dag, node_idx)
+                        // an ephemeral with neither input nor output record (it is new, or
+                        // failed last time) can not be validated, and its inputs must not be
+                        // compared: the records on its edges may stem from a since renamed
+                        // upstream with different outputs.
+                        || (matches!(job.state, JobState::Ephemeral(_))
+                            && !self.history.contains_key(&job.job_id))
                 }
             };
             let job = &mut self.jobs[node_idx as usize];
